@@ -430,7 +430,13 @@ def enc_list(c):
     return [c.open, c.high, c.low, c.close, c.volume] + ([c.timestamp] if c.timestamp is not None else [])
 
 
+def enc_list_ts_first(c):
+    return ([c.timestamp] if c.timestamp is not None else []) + [c.open, c.high, c.low, c.close, c.volume]
+
+
 ENCODINGS = {
+    "list-ts-first": (enc_list_ts_first, False),
+    "list-of-list-ts-first": (enc_list_ts_first, True),
     "Candle": (lambda c: gen.clone([c])[0], False),
     "dict": (enc_dict, False),
     "list": (enc_list, False),
